@@ -6,7 +6,7 @@ import tlc
 CONST = ("PartDef == <<1>>\n@@CONSTANT N = 1\nCONSTANT Part <- PartDef\nCONSTANT Shape = \"good\"")
 
 
-def solve_records(path, cplx=False, tag=None):
+def solve_records(path, cplx=False, tag=None, blas=0):
     """one record per ?gstrs call and per sp_?trsv call (nested ones included) with the kernel calls each made itself"""
     recs, stack = [], []
     with open(path) as f:
@@ -18,12 +18,12 @@ def solve_records(path, cplx=False, tag=None):
             if e == "SvBegin":
                 l = d.get("l") or []
                 r = {"e": "Solve", "kind": a[0], "op": a[1] if a[0] == 0 else a[2], "uplo": a[1] if a[0] == 1 else 0, "diag": a[3], "nrhs": a[4], "ldb": a[5], "n": a[6],
-                     "cplx": 1 if cplx else 0, "sn": [l[i:i + 4] for i in range(0, len(l), 4)], "ev": [], "info": -999}
+                     "cplx": 1 if cplx else 0, "blas": blas, "sn": [l[i:i + 4] for i in range(0, len(l), 4)], "ev": [], "info": -999}
                 if tag is not None:
                     r["tag"] = tag
                 stack.append(r)
             elif e == "SvCall" and stack:
-                stack[-1]["ev"].append(a[:6])
+                stack[-1]["ev"].append((a + [0] * 8)[:8])
             elif e == "SvEnd" and stack:
                 r = stack.pop()
                 r["info"] = a[0]
